@@ -685,8 +685,18 @@ fn run_gc_race(hist: &History, sel1: &[u16], sel2: &[u16], random: &[Vec<(u8, u1
             if both_wanted[0] && both_wanted[1] {
                 nontrivial += 1;
             }
-            // what is gone was requested by an actor that succeeded, or was unreferenced
-            let done: BTreeSet<u32> = (0..2).filter(|i| out.results[*i].result.is_ok()).flat_map(|i| req[i].iter().copied()).collect();
+            // what is gone was requested by an actor that succeeded -- or by one that failed
+            // part of the way (it had removed some of the versions it was asked to remove, say
+            // before it found another of them already gone: those directories it was entitled to
+            // remove) -- or was unreferenced
+            let mut done: BTreeSet<u32> = (0..2).filter(|i| out.results[*i].result.is_ok()).flat_map(|i| req[i].iter().copied()).collect();
+            for (a, l) in &out.trace {
+                if l.key.verb == V::RemoveDirAll && l.ok && l.injected.is_none() {
+                    if let Some(id) = req[*a].iter().find(|id| l.key.path.trim_end_matches('/') == format::band_dirname(**id)) {
+                        done.insert(*id);
+                    }
+                }
+            }
             let kept: Vec<u32> = pre.bands.keys().copied().filter(|b| !done.contains(b)).collect();
             let referenced = pre.referenced_hashes(kept.iter().copied());
             let after = format::raw_tree(&w.arch);
